@@ -9,6 +9,7 @@ CONSTANTS
   Ops = {"create", "link", "delete", "obs"}
   Faults = {}
   Script <- Script_Links
+  CopyKeep = {}
 VIEW View
 INVARIANT TypeOK
 INVARIANT NameUnique
